@@ -153,7 +153,11 @@ func (e *Engine) rtypeMethod(rt RType, name string, args []Value) Value {
 			panic(goPanic{"reflect: Field index out of bounds"})
 		}
 		f := st.Field(i)
-		return structField(f.Name(), e.rtypeIface(f.Type()), fieldOffsets(st)[i], i, f.Embedded())
+		sf := structField(f.Name(), e.rtypeIface(f.Type()), fieldOffsets(st)[i], i, f.Embedded()).(StructV)
+		if !f.Exported() && f.Pkg() != nil { // as reflect: PkgPath is set for unexported fields only
+			sf.f[1] = StringV{s: f.Pkg().Path()}
+		}
+		return sf
 	case "Elem":
 		switch u := t.Underlying().(type) {
 		case *types.Array:
@@ -230,6 +234,9 @@ func (e *Engine) intrinsic(fn *ssa.Function, args []Value, guard T, site *ssa.Ca
 	}
 	q := qualName(fn)
 	switch q {
+	case "(reflect.StructField).IsExported":
+		sf := args[0].(StructV)
+		return tbool(sf.f[1].(StringV).s == ""), true
 	case "reflect.TypeFor":
 		targs := fn.TypeArgs()
 		return e.rtypeIface(targs[0]), true
